@@ -298,7 +298,7 @@ def _escape(P, u, text):
 def r113(P, u, rep):
     fn = 'read_escaped_char'
     _need(u, fn)
-    rep.rule('R11.3', 'escape sequences: every simple escape of C11 6.4.4.4 (+ GNU \\e) yields its code of C11 5.2.2, octal escapes read at most three octal digits, hexadecimal escapes read all hex digits; each consumes exactly its own characters', floor=25)
+    rep.rule('R11.3', 'escape sequences: every simple escape of C11 6.4.4.4 (+ GNU \\e) yields its code of C11 5.2.2, octal escapes read at most three octal digits, hexadecimal escapes read all hex digits; each consumes exactly its own characters', floor=38)
     where = _where(u, fn)
     for ch, code in sorted(SIMPLE_ESC.items()):
         r = _escape(P, u, ch + 'Z"')
@@ -318,6 +318,45 @@ def r113(P, u, rep):
     r = _escape(P, u, 'xg"')
     rep.ob('R11.3', '%s:%s:hex-without-digits-diagnosed' % (TU, fn), r == ('error',),
            '\\x without a hex digit is not diagnosed (outcome %r)' % (r,), where=where)
+    # C11 6.4.4.4: hexadecimal-escape-sequence: \x hex-digit | hexadecimal-escape-sequence hex-digit -- there is no longest form.  A value
+    # that fits the element type can be spelled with any number of leading zeros; all digits belong to the escape.  Every digit count
+    # up to 40 and samples up to the 4095 characters of C11 5.2.4.1 are run, so a limit anywhere below is seen by every group above it.
+    r = _escape(P, u, 'xfffffff0"')
+    rep.ob('R11.3', '%s:%s:hex-8-digits-all-bits' % (TU, fn), r[0] == 'ret' and isinstance(r[1], int) and r[1] & 0xffffffff == 0xfffffff0 and r[2] == 9,
+           'the hexadecimal escape \\xfffffff0 evaluates to %s; expected the 32-bit value 0xfffffff0 from 8 digits' % ('an error' if r[0] == 'error' else 'value %r from %r characters' % r[1:]), where=where)
+    for gname, counts in (('9-to-16', range(9, 17)), ('17-to-40', range(17, 41)), ('41-to-300', (41, 63, 64, 65, 100, 127, 128, 129, 255, 256, 257, 300)),
+                          ('301-to-4200', (512, 513, 1025, 4200))):
+        ok, msg = True, ''
+        for nd in counts:
+            for tail, val in ((('5a', 0x5a), ('beef', 0xbeef)) if nd <= 300 else (('beef', 0xbeef),)):
+                text = 'x' + '0' * (nd - len(tail)) + tail
+                r = _escape(P, u, text + 'g"')
+                if r != ('ret', val, nd + 1) and ok:
+                    ok = False
+                    msg = 'the hexadecimal escape \\x%s (%d hex digits: %d zeros, then %s) evaluates to %s; C11 6.4.4.4 puts no limit on the number of digits: value %#x from all %d digits (the digits left over become separate characters of the literal)' % (
+                        ('0' * 6 + '...' + tail) if nd > 16 else text[1:], nd, nd - len(tail), tail, 'an error' if r[0] == 'error' else 'value %r from %r characters' % r[1:], val, nd)
+        rep.ob('R11.3', '%s:%s:hex-%s-digits' % (TU, fn, gname), ok, msg, where=where)
+    # ... and in every kind of literal that reads escapes
+    z9, z13 = '0' * 7, '0' * 9
+    for name, src, base, units in (('string', '"\\x%s41"' % z9, CHAR, [0x41]), ('u8-string', 'u8"\\x%sc3z"' % z13, CHAR, [0xC3, 0x7A]),
+                                   ('utf16-string', 'u"\\x%sbeefz"' % z9, USHORT, [0xBEEF, 0x7A]), ('utf32-string', 'U"\\x%s1F363z"' % z13, UINT_T, [0x1F363, 0x7A]),
+                                   ('wide-string', 'L"\\x%s3042z"' % z13, INT_T, [0x3042, 0x7A])):
+        good, what = check_string(P, u, src + '\n', base, units)
+        rep.ob('R11.3', '%s:tokenize:hex-escape-with-leading-zeros/%s' % (TU, name), good,
+               'the literal %s becomes %s; C11 6.4.4.4: all hex digits belong to the escape, so the array of %s holds %s' % (src, what, TYNAME[base], fmt_units(units + [0])), where=where)
+    for name, src, ty, val in (('char', "'\\x%s0a'" % z9, INT_T, 10), ('utf16-char', "u'\\x%sbeef'" % z9, USHORT, 0xBEEF), ('utf32-char', "U'\\x%s1F363'" % z13, UINT_T, 0x1F363),
+                               ('wide-char', "L'\\x%s3042'" % z13, INT_T, 0x3042)):
+        lx = lex(P, u, src + '\n')
+        ok, what = True, ''
+        if lx.failed or lx.kinds(u) != ['TK_NUM', 'TK_EOF']:
+            ok, what = False, lx.describe(u)
+        else:
+            t = lx.toks[0]
+            sig = L.type_sig(lx.it, t.fields.get('ty', 0))
+            if sig != ty or t.fields.get('val') != val:
+                ok, what = False, 'a constant of type %s with value %r' % (CTYNAME.get(sig, sig), t.fields.get('val'))
+        rep.ob('R11.3', '%s:tokenize:hex-escape-with-leading-zeros/%s' % (TU, name), ok,
+               'the character constant %s becomes %s; C11 6.4.4.4: all hex digits belong to the escape: type %s, value %d' % (src, what, CTYNAME[ty], val), where=where)
 
 
 # ============================================================================= R11.4 ===
@@ -455,14 +494,14 @@ class Lexed:
         return ' '.join('%s(%s)' % (k[3:], (x or b'').decode('utf-8', 'replace')) for k, x in zip(self.kinds(u), self.texts()))
 
 
-def lex(P, u, text, via_file=False):
+def lex(P, u, text, via_file=False, cfg=None):
     data = text.encode('utf-8', 'surrogatepass') if isinstance(text, str) else text
     if via_file:
         models = L.make_models(extra={'read_file': lambda it, ctx, n, a: L.cstring(data)})
-        it = L.CInterp(P, u, {'models': models})
+        it = L.CInterp(P, u, dict(cfg or {}, models=models))
         ctx, out = L.run1(it, 'tokenize_file', lambda ctx: ['x.c'])
     else:
-        it = L.CInterp(P, u, {'models': L.make_models()})
+        it = L.CInterp(P, u, dict(cfg or {}, models=L.make_models()))
 
         def mk(ctx):
             f = Obj('File', lazy=False)
@@ -475,14 +514,14 @@ def lex(P, u, text, via_file=False):
     return Lexed(it, ctx, out)
 
 
-def str_token(lx, tok):
+def str_token(lx, tok, limit=4096):
     """(base type sig, [units]) of a TK_STR token, or None"""
     sig = L.type_sig(lx.it, tok.fields.get('ty', 0))
     if not sig or sig[0] != 'TY_ARRAY' or not sig[2] or not isinstance(sig[3], int) or not isinstance(sig[1], int):
         return None
     base = sig[2]
     esz = base[1]
-    if not isinstance(esz, int) or esz not in (1, 2, 4) or sig[1] != esz * sig[3] or not 0 < sig[3] < 4096:
+    if not isinstance(esz, int) or esz not in (1, 2, 4) or sig[1] != esz * sig[3] or not 0 < sig[3] < limit:
         return (base, None, sig)
     raw = L.buf_bytes(tok.fields.get('str', 0), sig[1])
     if raw is None:
@@ -507,22 +546,22 @@ def fmt_units(us):
     return '[' + ' '.join('%X' % x if x is not None else '??' for x in us) + ']' if us is not None else 'an unreadable buffer'
 
 
-def check_string(P, u, src, base, units, via_file=False):
+def check_string(P, u, src, base, units, via_file=False, cfg=None, limit=4096):
     """lex src; it must be exactly one string literal token of element type `base` holding `units` + 0.
     returns (ok, description of what happened)"""
-    lx = lex(P, u, src, via_file)
+    lx = lex(P, u, src, via_file, cfg)
     if lx.failed:
         return False, lx.describe(u)
     if lx.kinds(u) != ['TK_STR', 'TK_EOF']:
         return False, 'the token sequence ' + lx.describe(u)
-    st = str_token(lx, lx.toks[0])
+    st = str_token(lx, lx.toks[0], limit)
     if st is None:
         return False, 'a string token without an array type'
     want = list(units) + [0]
     if st[0] != base:
         return False, 'an array of %s' % (TYNAME.get(st[0], st[0]),)
     if st[1] != want:
-        return False, '%d element(s) %s' % (st[2][3], fmt_units(st[1]))
+        return False, '%d element(s) %s' % (st[2][3], fmt_units(st[1]) if st[1] is None or len(st[1]) <= 24 else fmt_units(st[1][:12])[:-1] + ' ...]')
     return True, ''
 
 
@@ -1158,6 +1197,474 @@ def r1111(P, rep):
         rep.ob('R11.11', '%s:%s:%s' % (UU, fn, g), ok, msg, where=_where(uu, fn))
 
 
+# ============================================================================ R11.13 ===
+# The scanners have no table of lengths: every loop that collects the characters of one token ends at the first character that
+# does not belong to it.  C11 5.2.4.1 requires at least 4095 characters in a string literal / logical line and 63 significant
+# characters in an identifier; the spellings below are longer than all of them.
+LONG_N = (70, 300, 1100, 4200)
+_LONG_CFG = {'forever_limit': 100000}
+
+
+def r1113(P, u, rep):
+    fn = 'tokenize'
+    _need(u, fn, 'convert_pp_number')
+    rep.rule('R11.13', 'no scanner has a length limit: identifiers, pp-numbers, string literals of every prefix, comments and lines of 70 to 4200 characters '
+             '(beyond the minimum translation limits of C11 5.2.4.1) are read whole, with the value and type of the same spelling at any length', floor=12)
+    where = _where(u, fn)
+
+    def first_bad(cases):
+        for label, fnc in cases:
+            try:
+                what = fnc()
+            except AnalysisBroken as e:
+                return None, '%s: %s' % (label, e)
+            if what:
+                return False, '%s %s' % (label, what)
+        return True, ''
+
+    def ob(name, cases):
+        ok, msg = first_bad(cases)
+        key = '%s:%s:long-%s' % (TU, fn, name)
+        if ok is None:
+            rep.undecided('R11.13', key, msg, where=where)
+        else:
+            rep.ob('R11.13', key, ok, msg, where=where)
+
+    def one_token(src, kind, n):
+        lx = lex(P, u, src, cfg=_LONG_CFG)
+        if lx.failed or lx.kinds(u)[:1] != [kind] or len(lx.toks) != 2:
+            return 'is tokenized as %s' % lx.describe(u)[:200]
+        ln = lx.toks[0].fields.get('len')
+        if ln != n:
+            return 'becomes a %s token of %r characters; the rest is tokenized separately' % (kind[3:], ln)
+        return ''
+
+    ob('identifier', [('an identifier of %d characters' % n, lambda n=n: one_token('x' * n + ' \n', 'TK_IDENT', n)) for n in (70, 300, 4200)] +
+       [('an identifier of %d two-byte characters' % n, lambda n=n: one_token('\u00e9' * n + '\n', 'TK_IDENT', 2 * n)) for n in (70, 300)])
+
+    def number(text, want_ty, want_val):
+        lx = lex(P, u, text + ' ;\n', cfg=_LONG_CFG)
+        if lx.failed or lx.kinds(u) != ['TK_PP_NUM', 'TK_PUNCT', 'TK_EOF'] or lx.toks[0].fields.get('len') != len(text):
+            return 'is tokenized as %s' % lx.describe(u)[:200]
+        t = lx.toks[0]
+        it2 = L.CInterp(P, u, {'models': L.make_models()})
+        ctx2, out2 = L.run1(it2, 'convert_pp_number', [t])
+        if out2[0] != 'ret':
+            return 'is rejected as a numeric constant'
+        got = L.type_sig(it2, t.fields.get('ty', 0))
+        if got != want_ty or (want_val is not None and t.fields.get('val') != want_val):
+            return 'becomes a constant of type %s, value %r; expected %s%s' % (TYN.get(got, got), t.fields.get('val'), TYN.get(want_ty, want_ty[0]), '' if want_val is None else ', value %d' % want_val)
+        return ''
+    ob('integer-constant', [('an octal constant with %d digits' % n, lambda n=n: number('0' * (n - 2) + '17', INT, 15)) for n in LONG_N] +
+       [('a hexadecimal constant with %d digits' % n, lambda n=n: number('0x' + '0' * (n - 2) + '1F', INT, 31)) for n in LONG_N] +
+       [('a binary constant with %d digits' % n, lambda n=n: number('0b' + '0' * (n - 2) + '11', INT, 3)) for n in LONG_N[:3]])
+    ob('floating-constant', [('a floating constant with %d digits' % n, lambda n=n: number('1.' + '0' * (n - 5) + '5e1', DOUBLE, None)) for n in LONG_N] +
+       [('a hexadecimal floating constant with %d digits' % n, lambda n=n: number('0x1.' + '0' * (n - 7) + '8p1f', FLOAT, None)) for n in LONG_N[:3]])
+
+    def string(prefix, base, n, enc):
+        body = 'a' * (n - 3) + '\u00e9\U0001F363z'
+        units = [0x61] * (n - 3) + enc(0xE9) + enc(0x1F363) + [0x7A]
+        good, what = check_string(P, u, prefix + '"' + body + '"\n', base, units, cfg=_LONG_CFG, limit=1 << 16)
+        return '' if good else 'becomes %s; expected %d elements' % (what, len(units) + 1)
+    for name, prefix, base, enc in (('string', '', CHAR, utf8_oracle), ('u8-string', 'u8', CHAR, utf8_oracle), ('utf16-string', 'u', USHORT, utf16_oracle),
+                                    ('utf32-string', 'U', UINT_T, lambda c: [c]), ('wide-string', 'L', INT_T, lambda c: [c])):
+        ob(name, [('the literal %s"..." with %d characters' % (prefix, n), lambda n=n: string(prefix, base, n, enc)) for n in LONG_N])
+
+    def escapes(prefix, base, n):
+        good, what = check_string(P, u, prefix + '"' + '\\n\\x41\\101' * n + '"\n', base, [10, 0x41, 0x41] * n, cfg=_LONG_CFG, limit=1 << 16)
+        return '' if good else 'becomes %s; expected %d elements' % (what, 3 * n + 1)
+    ob('string-of-escapes', [('the literal %s"\\n\\x41\\101..." with %d escape sequences' % (prefix, 3 * n), lambda n=n, prefix=prefix, base=base: escapes(prefix, base, n))
+                             for prefix, base in (('', CHAR), ('u', USHORT), ('L', INT_T)) for n in (30, 150)])
+
+    def skipped(src):
+        lx = lex(P, u, src, cfg=_LONG_CFG)
+        if lx.failed or lx.kinds(u) != ['TK_IDENT', 'TK_EOF'] or lx.texts()[0] != b'after':
+            return 'is tokenized as %s; expected the comment to be skipped whole and the identifier `after` behind it' % lx.describe(u)[:200]
+        return ''
+    ob('comment', [('a block comment of %d characters' % n, lambda n=n: skipped('/*' + 'c' * n + '*/after\n')) for n in LONG_N] +
+       [('a line comment of %d characters' % n, lambda n=n: skipped('//' + 'c' * n + '\nafter\n')) for n in LONG_N])
+
+    def file_line(n):
+        # one logical line of n characters in three physical lines (CR LF ends, splices), a universal character name at its end
+        half = (n - 8) // 2
+        data = b'"' + b'a' * half + b'\\\r\n' + b'b' * half + b'\\\n' + b'\\u00e9z"\r\n'
+        good, what = check_string(P, u, data, CHAR, [0x61] * half + [0x62] * half + [0xC3, 0xA9, 0x7A], via_file=True, cfg=_LONG_CFG, limit=1 << 16)
+        return '' if good else 'is read as %s; expected one literal of %d elements' % (what, 2 * half + 4)
+    _need(u, 'tokenize_file')
+    ob('logical-line', [('a string literal spliced over three physical lines, %d characters in all,' % n, lambda n=n: file_line(n)) for n in (70, 300, 1100)])
+
+    pu = P.unit(PU)
+    _need(pu, 'join_adjacent_string_literals')
+
+    def joined(p1, p2, base, n):
+        src = '%s"%s" %s"%s" ;\n' % (p1, 'a' * n, p2, 'b' * n)
+        lx = lex(P, u, src, cfg=_LONG_CFG)
+        if lx.failed:
+            return 'is tokenized as %s' % lx.describe(u)[:200]
+        it2 = L.CInterp(P, pu, dict(_LONG_CFG, models=L.make_models()))
+        ctx2, out2 = L.run1(it2, 'join_adjacent_string_literals', lambda ctx: [lx.head])
+        lx2 = Lexed(it2, ctx2, ('ret', lx.head) if out2[0] == 'ret' else out2)
+        if out2[0] != 'ret' or lx2.kinds(u) != ['TK_STR', 'TK_PUNCT', 'TK_EOF']:
+            return 'is joined into %s' % lx2.describe(u)[:200]
+        st = str_token(lx2, lx2.toks[0], 1 << 16)
+        bad = [e for e in ctx2.events if e[0] in ('overflow', 'overread')]
+        if st is None or st[0] != base or st[1] != [0x61] * n + [0x62] * n + [0]:
+            return 'is joined into %s' % (('an array of %s with %d element(s)' % (TYNAME.get(st[0], st[0]), st[2][3])) if st else 'a token without array type')
+        if bad:
+            return 'is joined with a copy that runs %d byte(s) past a buffer' % bad[0][1]
+        return ''
+    ob('concatenation', [('the pair %s"a..." %s"b..." of %d characters each' % (p1, p2, n), lambda p1=p1, p2=p2, base=base, n=n: joined(p1, p2, base, n))
+                         for p1, p2, base, ns in (('', '', CHAR, (300, 1100)), ('', 'L', INT_T, (300,)), ('u', '', USHORT, (300,))) for n in ns])
+
+
+# ============================================================================ R11.14 ===
+# What a string literal gives to the object it initialises (C11 6.7.9p14, p15, p22): parse.c's initializer() is run on the tokens
+# the tokenizer produced for the literal.  Only the DECLARED element type decides the type of the object; the literal decides the
+# length of an array of unknown size and the values.
+PAU = 'parse.c'
+
+
+def _type_obj(pu, **fields):
+    t = Obj('Type', lazy=False)
+    for f, _, _ in pu.records.get('Type') or []:
+        t.fields[f] = 0
+    t.fields.update(fields)
+    return t
+
+
+def _run_initializer(P, u, pu, src, base_name, alen, in_struct=False):
+    """initializer() of parse.c on the tokens of `src` for an object of type `base_name[alen]` (alen -1: unknown size), or for
+    `struct { int n; base_name body[]; }` when in_struct.  returns a dict describing the outcome"""
+    tyu = P.unit('type.c')
+    if base_name not in tyu.globals:
+        raise AnalysisBroken('type object %s vanished from type.c' % base_name)
+    lx = lex(P, u, src)
+    if lx.failed:
+        raise AnalysisBroken('tokenize rejects the initializer sample %r (%s)' % (src, lx.describe(u)))
+    for t, k in zip(lx.toks, lx.kinds(u)):
+        if k == 'TK_PP_NUM':
+            L.run1(L.CInterp(P, u, {'models': L.make_models()}), 'convert_pp_number', [t])
+    lit = [t for t, k in zip(lx.toks, lx.kinds(u)) if k == 'TK_STR']
+    if len(lit) != 1:
+        raise AnalysisBroken('initializer sample %r has no single string literal token' % src)
+    st = str_token(lx, lit[0])
+    if st is None or st[1] is None:
+        raise AnalysisBroken('the literal of the initializer sample %r has no readable array type' % src)
+    it = L.CInterp(P, pu, {'models': L.make_models()})
+    box = {'rest': 0, 'new_ty': 0}
+    E = pu.enums
+    keep = {}
+
+    def mk(ctx):
+        base = it.materialise_global(base_name, tyu.globals[base_name])
+        if not isinstance(base, Obj) or not isinstance(base.fields.get('size'), int):
+            raise AnalysisBroken('type object %s is not a concrete Type' % base_name)
+        bs, ba = base.fields['size'], base.fields.get('align', 1)
+        ty = _type_obj(pu, kind=E['TY_ARRAY'], size=bs * alen, align=ba, base=base, array_len=alen)
+        keep.update(base=base, ty=ty)
+        top = ty
+        if in_struct:
+            tint = it.materialise_global('ty_int', tyu.globals['ty_int'])
+            ms = []
+            for i, (mt, off) in enumerate(((tint, 0), (ty, 4))):
+                m = Obj('Member', lazy=False)
+                for f, _, _ in pu.records.get('Member') or []:
+                    m.fields[f] = 0
+                m.fields.update(ty=mt, idx=i, align=mt.fields.get('align', 1), offset=off)
+                ms.append(m)
+            ms[0].fields['next'] = ms[1]
+            top = _type_obj(pu, kind=E['TY_STRUCT'], size=4, align=4, members=ms[0], is_flexible=1)
+            keep.update(members=ms)
+        keep['top'] = top
+        return [_Ref(VarPlace(box, 'rest')), lx.head, top, _Ref(VarPlace(box, 'new_ty'))]
+    ctx, out = L.run1(it, 'initializer', mk)
+    res = {'out': out, 'lit': lit[0], 'units': st[1], 'lit_base': st[0], 'it': it, 'keep': keep, 'lx': lx}
+    if out[0] != 'ret':
+        return res
+    init, nt = out[1], box['new_ty']
+    res['rest'] = L.tok_text(box['rest']) if isinstance(box['rest'], Obj) else None
+    arr_init, arr_ty = init, nt
+    if in_struct and isinstance(init, Obj) and isinstance(nt, Obj):
+        ai = L.arr_of(init.fields.get('children', 0))
+        arr_init = ai[0].elems[1] if ai and len(ai[0].elems) > 1 else None
+        m = nt.fields.get('members', 0)
+        m = m.fields.get('next', 0) if isinstance(m, Obj) else 0
+        arr_ty = m.fields.get('ty', 0) if isinstance(m, Obj) else None
+        res['struct_size'] = nt.fields.get('size')
+        res['struct_is_copy'] = nt is not keep['top'] and keep['members'][1].fields.get('ty') is keep['ty']
+    res['init_ty'] = arr_init.fields.get('ty', 0) if isinstance(arr_init, Obj) else None
+    res['obj_ty'] = arr_ty
+    vals = None
+    if isinstance(arr_init, Obj):
+        ai = L.arr_of(arr_init.fields.get('children', 0))
+        if ai:
+            vals = []
+            for c in ai[0].elems[ai[1]:]:
+                e = c.fields.get('expr', 0) if isinstance(c, Obj) else None
+                if isinstance(e, Obj):
+                    vals.append(e.fields.get('val') if e.fields.get('kind') == E.get('ND_NUM') else '?')
+                else:
+                    vals.append(None)
+    res['vals'] = vals
+    return res
+
+
+# declared element types per width (type.c objects) and the literal spellings that may initialise them
+_DECL_TYPES = {1: [('char', 'ty_char'), ('unsigned-char', 'ty_uchar')], 2: [('short', 'ty_short'), ('unsigned-short', 'ty_ushort')],
+               4: [('int', 'ty_int'), ('unsigned-int', 'ty_uint')]}
+_INIT_LITS = [('narrow', '"a\\xff\\x80"', 1), ('u8', 'u8"a\u00e9"', 1), ('utf16', 'u"a\\xfff0\U0001F363"', 2), ('utf32', 'U"a\\xfffffff0"', 4), ('wide', 'L"a\\xfffffff0\u3042"', 4)]
+
+
+def r1114(P, u, rep):
+    pu = P.unit(PAU)
+    fn = 'initializer'
+    _need(pu, fn, 'string_initializer', 'new_initializer')
+    for k in ('TY_ARRAY', 'TY_STRUCT', 'ND_NUM'):
+        if k not in pu.enums:
+            raise AnalysisBroken('enumerator %s vanished' % k)
+    rep.rule('R11.14', 'an array initialised by a string literal keeps its DECLARED element type; an array of unknown size (or flexible array member) gets exactly the '
+             'literal\'s number of elements including the terminator (C11 6.7.9p22), a sized array takes min(size, length) code units; the elements are the literal\'s '
+             'code units; a literal whose element width differs from the array\'s is diagnosed (C11 6.7.9p14, p15)', floor=40)
+    where = _where(pu, 'string_initializer')
+    tyu = P.unit('type.c')
+
+    def describe_ty(it, t):
+        sg = L.type_sig(it, t)
+        if not sg:
+            return 'no type'
+        if sg[0] == 'TY_ARRAY':
+            b = sg[2] or ('?', 0, 0)
+            return '%s%s[%s] (size %s)' % ('unsigned ' if b[2] else '', str(b[0])[3:].lower(), sg[3], sg[1])
+        return '%s%s' % ('unsigned ' if sg[2] else '', str(sg[0])[3:].lower())
+
+    for lname, lsrc, width in _INIT_LITS:
+        for dname, dobj in _DECL_TYPES[width]:
+            if dobj not in tyu.globals:
+                rep.undecided('R11.14', '%s:string_initializer:%s-literal/%s-array' % (PAU, lname, dname), 'type object %s vanished from type.c' % dobj, where=where)
+                continue
+            probe = _run_initializer(P, u, pu, lsrc + ' ;\n', dobj, -1)
+            n = len(probe['units'])
+            forms = [('unknown-size', -1, False, n), ('exact-size', n, False, n), ('size-without-terminator', n - 1, False, n - 1), ('larger-size', n + 2, False, n),
+                     ('flexible-member', -1, True, n)]
+            for fname, alen, in_struct, count in forms:
+                key = '%s:string_initializer:%s-literal/%s-array/%s' % (PAU, lname, dname, fname)
+                src = ('{ 1, %s } ;\n' % lsrc) if in_struct else lsrc + ' ;\n'
+                decl = ('struct { int n; %s body[]; } x = { 1, %s }' if in_struct else '%s x[' + ('' if alen < 0 else str(alen)) + '] = %s') % (dname.replace('-', ' '), lsrc)
+                r = probe if (alen, in_struct) == (-1, False) else _run_initializer(P, u, pu, src, dobj, alen, in_struct)
+                out = r['out']
+                if out[0] == 'crash':
+                    rep.ob('R11.14', key, False, '`%s`: the compiler dereferences NULL at %s' % (decl, out[2]), where=where)
+                    continue
+                if out[0] != 'ret':
+                    rep.ob('R11.14', key, False, '`%s` is rejected ("%s"); it is a valid initialisation (C11 6.7.9p14/p15)' % (decl, out[2][1] if len(out) > 2 and len(out[2]) > 1 else out[1]), where=where)
+                    continue
+                it = r['it']
+                base = r['keep']['base']
+                want_len = n if alen < 0 else alen
+                esz = base.fields['size']
+                ot, ity = r['obj_ty'], r['init_ty']
+                msgs = []
+                for what, t in (('the type handed to the object', ot), ('the type of the initializer tree', ity)):
+                    sg = L.type_sig(it, t)
+                    if not isinstance(t, Obj) or not sg or sg[0] != 'TY_ARRAY':
+                        msgs.append('%s is %s, not an array' % (what, describe_ty(it, t)))
+                    elif t.fields.get('base') is not base:
+                        msgs.append('%s is %s: its element type is %s, not the declared element type %s (the elements change signedness behind the declaration: `unsigned char s[] = "\\xff"` reads back -1)' % (
+                            what, describe_ty(it, t), 'the element type of the literal' if t.fields.get('base') is r['lit'].fields.get('ty').fields.get('base') else 'another type', dname.replace('-', ' ')))
+                    elif sg[3] != want_len or sg[1] != want_len * esz:
+                        msgs.append('%s is %s; expected %d element(s) of %d byte(s)%s' % (what, describe_ty(it, t), want_len, esz, ' (the literal has %d code units including its terminator)' % n if alen < 0 else ''))
+                if alen >= 0 and not in_struct and ot is not r['keep']['ty']:
+                    msgs.append('the sized array gets another type object than its declared type')
+                if in_struct:
+                    if not r.get('struct_is_copy'):
+                        msgs.append('the declared struct type itself is modified (every other object of the type changes size too)')
+                    if r.get('struct_size') != 4 + want_len * esz:
+                        msgs.append('the struct object has size %r; expected sizeof(struct) + %d' % (r.get('struct_size'), want_len * esz))
+                vals = r['vals']
+                mask = (1 << (8 * esz)) - 1
+                if vals is None or len(vals) != want_len:
+                    msgs.append('the initializer tree has %s element slots; expected %d' % (len(vals) if vals is not None else 'no', want_len))
+                else:
+                    got = [(v & mask) if isinstance(v, int) else v for v in vals]
+                    want = r['units'][:count] + [None] * (want_len - count)
+                    if got != want:
+                        msgs.append('the elements are initialised with %s; the code units of the literal are %s%s' % (
+                            fmt_units(got), fmt_units(r['units'][:count]), ', the remaining %d element(s) stay zero' % (want_len - count) if want_len > count else ''))
+                if r.get('rest') != b';' and r.get('rest') != b'}':
+                    msgs.append('parsing continues at `%s`, not behind the literal' % (r.get('rest') or b'?').decode('utf-8', 'replace'))
+                rep.ob('R11.14', key, not msgs, '`%s`: %s' % (decl, '; '.join(msgs)), where=where)
+    # element width of the literal != element width of the array: no reading of the literal's bytes with another width
+    for lname, lsrc, width in (('narrow', '"abc"', 1), ('utf16', 'u"abc"', 2), ('wide', 'L"abc"', 4)):
+        for w2 in (1, 2, 4):
+            if w2 == width:
+                continue
+            dname, dobj = _DECL_TYPES[w2][1 if w2 > 1 else 0]
+            key = '%s:string_initializer:%s-literal/%d-byte-elements-diagnosed' % (PAU, lname, w2)
+            if dobj not in tyu.globals:
+                rep.undecided('R11.14', key, 'type object %s vanished from type.c' % dobj, where=where)
+                continue
+            r = _run_initializer(P, u, pu, lsrc + ' ;\n', dobj, -1)
+            out = r['out']
+            what = ''
+            if out[0] == 'ret':
+                what = 'accepted: the object becomes %s and the %d-byte code units of the literal are read as %d-byte units%s' % (
+                    describe_ty(r['it'], r['obj_ty']), width, w2, ', %d bytes past the end of the literal\'s buffer' % (4 * w2 - 4 * width) if w2 > width else '')
+            elif out[0] == 'crash':
+                what = 'not diagnosed: the compiler dereferences NULL at %s' % out[2]
+            rep.ob('R11.14', key, out[0] == 'noreturn',
+                   '`%s x[] = %s` is %s; C11 6.7.9p14/p15: an array of character type is initialised by a character string literal, an array compatible with wchar_t '
+                   '(char16_t, char32_t) by a literal of that prefix -- anything else is a constraint violation' % (dname.replace('-', ' '), lsrc, what), where=where)
+
+
+# ============================================================================ R11.15 ===
+# The bundled headers name the types of the prefixed literals: wchar_t (C11 6.4.4.4p11, 6.4.5p6), char16_t / char32_t (7.28), and
+# their atomic variants (7.17.6: atomic_wchar_t is _Atomic wchar_t ...).  A program sees one type under two names, so each header
+# typedef must be the type the tokenizer gives the literal (read from the tokens it produces, not from a table).
+_WIDE_NAMES = {'wchar_t': 'L', 'char16_t': 'u', 'char32_t': 'U', 'atomic_wchar_t': 'L', 'atomic_char16_t': 'u', 'atomic_char32_t': 'U'}
+_WIDE_MACROS = {'__WCHAR_TYPE__': 'L', '__CHAR16_TYPE__': 'u', '__CHAR32_TYPE__': 'U'}
+_WIDE_SIZEOF = {'__SIZEOF_WCHAR_T__': 'L', '__SIZEOF_CHAR16_T__': 'u', '__SIZEOF_CHAR32_T__': 'U'}
+
+
+def r1115(P, u, rep):
+    _need(u, 'tokenize')
+    rep.rule('R11.15', 'wchar_t / char16_t / char32_t (and atomic_wchar_t / atomic_char16_t / atomic_char32_t, predefined __WCHAR_TYPE__ ...) as declared by the bundled '
+             'headers are the types the tokenizer gives to L / u / U character constants and to the elements of L / u / U string literals (width and signedness)', floor=8)
+    lit = {}
+    for pfx in ('L', 'u', 'U'):
+        lx = lex(P, u, "%s'a' %s\"a\"\n" % (pfx, pfx))
+        if lx.failed or lx.kinds(u) != ['TK_NUM', 'TK_STR', 'TK_EOF']:
+            raise AnalysisBroken("%s'a' %s\"a\" is tokenized as %s" % (pfx, pfx, lx.describe(u)))
+        cs = L.type_sig(lx.it, lx.toks[0].fields.get('ty', 0))
+        st = str_token(lx, lx.toks[1])
+        if not cs or st is None or not isinstance(cs[1], int) or not isinstance(st[0][1], int):
+            raise AnalysisBroken('the type of the %s-prefixed literals is not concrete' % pfx)
+        lit[pfx] = {'character constant': cs, 'string literal element': st[0]}
+
+    def show(sig):
+        return '%s%s (%d bits)' % ('unsigned ' if sig[2] else '', str(sig[0])[3:].lower(), 8 * sig[1])
+    n = 0
+    for hdr, name, spelled, line, invalid in L.header_typedefs(P, set(_WIDE_NAMES)):
+        pfx = _WIDE_NAMES[name]
+        where = '%s:%d' % (hdr, line)
+        a = L.c_int_type(spelled)
+        if invalid or a is None:
+            rep.undecided('R11.15', '%s:%s:typedef' % (hdr, name), 'typedef %s is `%s`: not an integer type this rule can read%s' % (name, spelled, ' (clang rejects the declaration without its own predefined macros)' if invalid else ''), where=where)
+            continue
+        for what, sig in sorted(lit[pfx].items()):
+            n += 1
+            rep.ob('R11.15', '%s:%s:is-type-of-%s-%s' % (hdr, name, pfx, what.replace(' ', '-')), a == (8 * sig[1], sig[2]),
+                   '%s is `%s` (%d bits, %s) but the %s of %s%s has type %s: one type under two names -- _Generic(%s\'a\', %s: 1, default: 0) is 0, and a value >= 2^%d changes sign '
+                   '(comparison, division, >>, widening) when it moves between the literal and a %s object' % (
+                       name, spelled, a[0], 'unsigned' if a[1] else 'signed', what, pfx, "'x'" if what.startswith('char') else '"..."', show(sig), pfx, name.replace('atomic_', ''), 8 * sig[1] - 1, name), where=where)
+    if n == 0:
+        rep.undecided('R11.15', 'include:wchar_t:typedef', 'no bundled header declares wchar_t any more: shape not recognised')
+    pu = P.unit(PU)
+    for fnm, fd in sorted(pu.functions.items()):
+        for c in fd.calls('define_macro'):
+            a = c.args()
+            nm = a[0].str_value() if len(a) == 2 else None
+            if nm not in _WIDE_MACROS and nm not in _WIDE_SIZEOF:
+                continue
+            val = a[1].str_value()
+            pfx = _WIDE_MACROS.get(nm) or _WIDE_SIZEOF.get(nm)
+            sig = lit[pfx]['character constant']
+            key = '%s:%s:%s' % (PU, fnm, nm)
+            where = '%s:%d' % (PU, c.line)
+            if not isinstance(val, str):
+                rep.undecided('R11.15', key, 'the value of the predefined macro %s is not a string literal' % nm, where=where)
+            elif nm in _WIDE_MACROS:
+                t = L.c_int_type(val)
+                if t is None:
+                    rep.undecided('R11.15', key, 'predefined macro %s expands to `%s`: not an integer type this rule can read' % (nm, val), where=where)
+                else:
+                    rep.ob('R11.15', key, t == (8 * sig[1], sig[2]), '%s expands to `%s` but %s\'x\' has type %s' % (nm, val, pfx, show(sig)), where=where)
+            else:
+                try:
+                    rep.ob('R11.15', key, int(val.strip(), 0) == sig[1], '%s is %s but sizeof(%s\'x\') is %d' % (nm, val, pfx, sig[1]), where=where)
+                except ValueError:
+                    rep.undecided('R11.15', key, 'predefined macro %s expands to `%s`, not to an integer literal' % (nm, val), where=where)
+
+
+# ============================================================================ R11.16 ===
+def r1116(P, u, rep):
+    pu = P.unit(PAU)
+    fn = 'primary'
+    _need(pu, fn)
+    rep.rule('R11.16', 'a literal token becomes a primary expression of exactly the token\'s type and value: constants keep Token.ty and Token.val / Token.fval, '
+             'a string literal becomes an object of the token\'s array type holding the token\'s bytes', floor=18)
+    where = _where(pu, fn)
+    nd_num, nd_var = pu.enums.get('ND_NUM'), pu.enums.get('ND_VAR')
+    if nd_num is None or nd_var is None:
+        raise AnalysisBroken('enumerator ND_NUM/ND_VAR vanished')
+    marker = Sym('fval', 'long double')
+
+    def m_anon(it, ctx, n, a):
+        o = Obj('Obj', lazy=False, label='string-literal-object')
+        for f, _, _ in pu.records.get('Obj') or []:
+            o.fields[f] = 0
+        o.fields['ty'] = a[0] if a else 0
+        o.fields['is_static'] = 1
+        return o
+
+    def run(src):
+        lx = lex(P, u, src + ' ;\n')
+        if lx.failed or len(lx.toks) != 3:
+            raise AnalysisBroken('the literal sample %s is tokenized as %s' % (src, lx.describe(u)))
+        tok = lx.toks[0]
+        if lx.kinds(u)[0] == 'TK_PP_NUM':
+            L.run1(L.CInterp(P, u, {'models': L.make_models(on_float=lambda it, ctx, f, text: marker)}), 'convert_pp_number', [tok])
+        it = L.CInterp(P, pu, {'models': L.make_models(extra={'new_anon_gvar': m_anon})})
+        box = {'rest': 0}
+        ctx, out = L.run1(it, fn, lambda ctx: [_Ref(VarPlace(box, 'rest')), tok])
+        return lx, it, tok, out, box['rest']
+
+    consts = [('int', '7'), ('unsigned', '7u'), ('long', '7l'), ('unsigned-long', '7ul'), ('hex-unsigned', '0x80000000'), ('decimal-long', '2147483648'), ('hex-unsigned-long', '0x8000000000000000'),
+              ('char', "'\\xff'"), ('utf16-char', "u'\\xfff0'"), ('utf32-char', "U'\\xfffffff0'"), ('wide-char', "L'\\xfffffff0'"),
+              ('double', '1.5'), ('float', '1.5f'), ('long-double', '1.5L')]
+    for name, src in consts:
+        key = '%s:%s:constant-%s' % (PAU, fn, name)
+        lx, it, tok, out, rest = run(src)
+        if out[0] != 'ret' or not isinstance(out[1], Obj):
+            rep.ob('R11.16', key, False, 'the constant %s is not accepted as a primary expression (%s)' % (src, out[0]), where=where)
+            continue
+        nd = out[1]
+        tsig, nsig = L.type_sig(lx.it, tok.fields.get('ty', 0)), L.type_sig(it, nd.fields.get('ty', 0))
+        isf = tsig is not None and tsig[0] in ('TY_FLOAT', 'TY_DOUBLE', 'TY_LDOUBLE')
+        msgs = []
+        if nd.fields.get('kind') != nd_num:
+            msgs.append('the node is not ND_NUM')
+        if nd.fields.get('ty', 0) is not tok.fields.get('ty', 0) and nsig != tsig:
+            msgs.append('the expression has type %r, the constant has type %r' % (nsig, tsig))
+        if isf and nd.fields.get('fval') is not marker:
+            msgs.append('the expression has the value %r, not the long double value of the token' % (nd.fields.get('fval'),))
+        if not isf and nd.fields.get('val') != tok.fields.get('val'):
+            msgs.append('the expression has the value %r, the constant %r' % (nd.fields.get('val'), tok.fields.get('val')))
+        if not (isinstance(rest, Obj) and L.tok_text(rest) == b';'):
+            msgs.append('parsing does not continue behind the constant')
+        rep.ob('R11.16', key, not msgs, 'the constant %s: %s' % (src, '; '.join(msgs)), where=where)
+    for name, src in (('narrow', '"a\\xff"'), ('u8', 'u8"\u00e9"'), ('utf16', 'u"a\U0001F363"'), ('utf32', 'U"a\\xfffffff0"'), ('wide', 'L"a\\xfffffff0"')):
+        key = '%s:%s:string-literal-%s' % (PAU, fn, name)
+        lx, it, tok, out, rest = run(src)
+        if out[0] != 'ret' or not isinstance(out[1], Obj):
+            rep.ob('R11.16', key, False, 'the string literal %s is not accepted as a primary expression (%s)' % (src, out[0]), where=where)
+            continue
+        nd = out[1]
+        var = nd.fields.get('var', 0)
+        msgs = []
+        if nd.fields.get('kind') != nd_var or not isinstance(var, Obj):
+            msgs.append('the node is not an ND_VAR of an anonymous object')
+        else:
+            if var.fields.get('ty', 0) is not tok.fields.get('ty', 0) and L.type_sig(it, var.fields.get('ty', 0)) != L.type_sig(lx.it, tok.fields.get('ty', 0)):
+                msgs.append('the object has type %r, the literal %r' % (L.type_sig(it, var.fields.get('ty', 0)), L.type_sig(lx.it, tok.fields.get('ty', 0))))
+            sz = (L.type_sig(lx.it, tok.fields.get('ty', 0)) or (0, 0))[1]
+            a, b = L.buf_bytes(var.fields.get('init_data', 0), sz), L.buf_bytes(tok.fields.get('str', 0), sz)
+            if a is None or a != b:
+                msgs.append('the object is not initialised with the %d bytes of the literal' % sz)
+        if not (isinstance(rest, Obj) and L.tok_text(rest) == b';'):
+            msgs.append('parsing does not continue behind the literal')
+        rep.ob('R11.16', key, not msgs, 'the string literal %s: %s' % (src, '; '.join(msgs)), where=where)
+
+
 def run(P, rep, tier):
     u = P.unit(TU)
     rep.explanation = ('The literal readers of tokenize.c/unicode.c/preprocess.c are interpreted (Engine I) on the spellings of the C11 literal grammar. '
@@ -1173,7 +1680,8 @@ def run(P, rep, tier):
     _need(u, 'tokenize', 'tokenize_file', 'convert_pp_int', 'convert_pp_number', 'read_escaped_char', 'read_utf16_string_literal')
     for rule, f in (('R11.1', lambda: r111(P, u, rep)), ('R11.3', lambda: r113(P, u, rep)), ('R11.4', lambda: r114(P, rep)),
                     ('R11.5', lambda: r115(P, u, rep)), ('R11.6', lambda: r116(P, u, rep)), ('R11.7', lambda: r117(P, u, rep)),
-                    ('R11.8', lambda: r118(P, u, rep)), ('R11.9', lambda: r119(P, u, rep)), ('R11.10', lambda: r1110(P, u, rep)), ('R11.11', lambda: r1111(P, rep)), ('R11.12', lambda: r1112(P, u, rep))):
+                    ('R11.8', lambda: r118(P, u, rep)), ('R11.9', lambda: r119(P, u, rep)), ('R11.10', lambda: r1110(P, u, rep)), ('R11.11', lambda: r1111(P, rep)), ('R11.12', lambda: r1112(P, u, rep)),
+                    ('R11.13', lambda: r1113(P, u, rep)), ('R11.14', lambda: r1114(P, u, rep)), ('R11.15', lambda: r1115(P, u, rep)), ('R11.16', lambda: r1116(P, u, rep))):
         try:
             f()
         except AnalysisBroken as e:
